@@ -144,7 +144,7 @@ AppMdShapes == {[fmt |-> "AppMetadata", p |-> [pairs |-> ps], f |-> AppMd(ps)] :
                   ps \in {<<>>, << <<3, 8>> >>, << <<2, 1>>, <<4, 8>> >>, << <<1, 8>>, <<2, 0>>, <<3, 8>> >>}}
 \* the metadata singleapp itself writes: 3 integer items and the wrapped metadata (keys of 13, 18, 17 and 16 bytes)
 SingleAppMd(wrapped) == AppMd(<< <<13, 8>>, <<18, 8>>, <<17, 8>>, <<16, wrapped>> >>)
-AppFileShapes == {[fmt |-> "AppFile", p |-> [wrapped |-> w, payload |-> pl], f |-> AppFile(SingleAppMd(w), pl)] : w \in {0, 5}, pl \in {7}}
+AppFileShapes == {[fmt |-> "AppFile", p |-> [wrapped |-> w, payload |-> pl], f |-> AppFile(SingleAppMd(w), pl)] : w \in {5}, pl \in {7}}
 
 PgShapes ==
   {[fmt |-> "PgParse", p |-> [nameLen |-> a, queryLen |-> 8, ntypes |-> n], f |-> PgParse(a, 8, n)] : a \in {0, 2}, n \in {0, 2}}
